@@ -884,3 +884,112 @@ fn p_replace3() {
     core::mem::forget(dst);
     core::mem::forget(d);
 }
+
+#[cfg(kani)]
+#[kani::proof]
+#[kani::unwind(10)]
+fn p_ac_reject() {
+    use aho_corasick::{AhoCorasick, StartKind};
+    // DFA built with StartKind::Both; the wrapper's start_kind is symbolic
+    let sk = match kani::any::<u8>() % 3 { 0 => StartKind::Both, 1 => StartKind::Unanchored, _ => StartKind::Anchored };
+    let ac = AhoCorasick::verif_from_dfa(mk_d_std(), sk);
+    let hay: [u8; 4] = kani::any();
+    let anch: bool = kani::any();
+    let inp = Input::new(&hay[..]).anchored(if anch { Anchored::Yes } else { Anchored::No });
+    let r = ac.try_find(inp.clone());
+    let reject = match sk { StartKind::Both => false, StartKind::Unanchored => anch, StartKind::Anchored => !anch };
+    assert!(r.is_err() == reject);
+    if let Ok(got) = r {
+        check(got, oracle_std(gen_std::PATS, &hay[..], 0, 4, anch));
+    }
+    let it = ac.try_find_iter(inp.clone());
+    assert!(it.is_err() == reject);
+    kani::cover!(reject);
+    kani::cover!(!reject);
+    core::mem::forget(it);
+    core::mem::forget(ac);
+}
+
+// k-th (0-based) occurrence ending at `end` in order (start asc = longest first, pid asc)
+fn nth_at(pats: &[&[u8]], hay: &[u8], n: usize, end: usize, k: usize) -> Option<(usize, usize, usize)> {
+    let mut cnt = 0;
+    let mut start = 0;
+    while start <= end {
+        let mut pid = 0;
+        while pid < pats.len() {
+            if pats[pid].len() == end - start && occurs(pats[pid], hay, start, n) {
+                if cnt == k { return Some((pid, start, end)); }
+                cnt += 1;
+            }
+            pid += 1;
+        }
+        start += 1;
+    }
+    None
+}
+
+#[cfg(kani)]
+#[kani::proof]
+#[kani::unwind(10)]
+fn p_ov_step() {
+    const N: usize = 5;
+    let d = mk_d_std();
+    let pats = gen_std::PATS;
+    let hay: [u8; N] = kani::any();
+    let at: usize = kani::any();
+    let i: usize = kani::any();
+    kani::assume(at < N && i >= 1 && i <= 4);
+    // pre-state: the i-th match ending at at+1 has just been reported
+    kani::assume(nth_at(pats, &hay[..], N, at + 1, i - 1).is_some());
+    let mut sid = d.start_state(Anchored::No).unwrap();
+    let mut j = 0;
+    while j < N { if j <= at { sid = d.next_state(Anchored::No, sid, hay[j]); } j += 1; }
+    let mut st = OverlappingState::verif_new(Some(sid), at, Some(i));
+    d.try_find_overlapping(&Input::new(&hay[..]), &mut st).unwrap();
+    let got = st.get_match();
+    // expected: next at the same end, else first at a later end
+    let mut want = nth_at(pats, &hay[..], N, at + 1, i);
+    let mut e = at + 2;
+    while e <= N {
+        if want.is_none() { want = nth_at(pats, &hay[..], N, e, 0); }
+        e += 1;
+    }
+    check(got, want);
+    kani::cover!(got.is_some() && got.unwrap().end() == at + 1);
+    kani::cover!(got.is_some() && got.unwrap().end() > at + 1);
+    kani::cover!(got.is_none());
+    core::mem::forget(d);
+}
+
+pub mod gen_p;
+#[cfg(kani)]
+mod pf_probe {
+    use super::*;
+    pub fn memchr1(n1: u8, hay: &[u8]) -> Option<usize> {
+        let mut i = 0;
+        while i < hay.len() { if hay[i] == n1 { return Some(i); } i += 1; }
+        None
+    }
+    pub fn cpuid_stub(_leaf: u32, _sub: u32) -> core::arch::x86_64::CpuidResult {
+        core::arch::x86_64::CpuidResult { eax: 0, ebx: 0, ecx: 0, edx: 0 }
+    }
+
+    #[kani::proof]
+    #[kani::unwind(11)]
+    #[kani::stub(memchr::memchr::memchr, memchr1)]
+    #[kani::stub(core::arch::x86_64::__cpuid_count, cpuid_stub)]
+    fn p_dfa_pf8() {
+        use gen_p::d::*;
+        let mut d = dfa::DFA::verif_from_parts(TRANS, MATCHES, PLENS, MK, STATE_LEN, ALPHA, STRIDE2, &BC, MINP, MAXP, SPECIAL);
+        d.verif_set_prefilter(Some(aho_corasick::automaton::Prefilter::verif_start_one(b'a')));
+        let hay: [u8; 8] = kani::any();
+        let s: usize = kani::any();
+        let e: usize = kani::any();
+        kani::assume(s <= e && e <= 8);
+        let inp = Input::new(&hay[..]).span(s..e);
+        let got = d.try_find(&inp).unwrap();
+        check(got, oracle_lf(gen_p::PATS, &hay[..], s, e, false));
+        kani::cover!(got.is_some() && got.unwrap().start() >= 3);
+        core::mem::forget(d);
+    }
+}
